@@ -38,6 +38,8 @@ def of(F, inst):
     from . import invariants as INV
     if id(F) not in INV._cache:
         INV.counter_invariants(F)
+    if id(F) not in INV._cache2:
+        INV.stride_invariants(F)
     k = (id(F), inst.get("key") or inst.get("path"))
     if k not in _cache:
         _cache[k] = An(F, inst)
